@@ -56,6 +56,37 @@ func genRec(cfg Config, emit func(string, bool, []string)) {
 		add("cfg %d %d %d %s%s%s", minB, maxB, roundSize, mode, set, map[int]string{0: "", 1: "-batch"}[batch])
 		nid := 1 + r.IntN(4)
 		clock := 0
+		if c%5 == 2 {
+			// long-failing operations side by side: updates and a delete that keep failing over
+			// several retry periods while the retry low-watermark is observed
+			nid = 3 + r.IntN(2)
+			for id := 1; id <= nid; id++ {
+				add("put %d %d", id, r.IntN(100))
+			}
+			add("advance 7")
+			for id := 1; id <= nid; id++ {
+				add("fail %d 1", id)
+			}
+			victim := 1 + r.IntN(nid)
+			for id := 1; id <= nid; id++ {
+				if id == victim {
+					add("del %d", id)
+				} else {
+					add("put %d %d", id, r.IntN(100))
+				}
+				add("advance %d", []int{1, 7, 33}[r.IntN(3)])
+			}
+			for k := 0; k < 6; k++ {
+				add("advance %d", minB+[]int{1, 7, 33, 61}[r.IntN(4)])
+				add("obs")
+			}
+			// one of them recovers, the others keep failing
+			add("fail %d 0", 1+r.IntN(nid))
+			for k := 0; k < 4; k++ {
+				add("advance %d", maxB+[]int{1, 7, 33}[r.IntN(3)])
+				add("obs")
+			}
+		}
 		for i := 0; i < steps; i++ {
 			id := 1 + r.IntN(nid)
 			switch x := r.IntN(100); {
@@ -166,6 +197,7 @@ type recExec struct {
 	failStreak    map[uint64][]time.Duration
 	attempts      map[uint64]int
 	k4            map[uint64]bool
+	delRev        map[uint64]uint64 // revision of the user's deletion of an object
 	inUpdate      uint64
 	inUpdateRetry bool
 }
@@ -263,6 +295,7 @@ func (e *recExec) setup(minB, maxB, roundSize int, batch bool) {
 	e.changedAt = map[uint64]time.Duration{}
 	e.attempts = map[uint64]int{}
 	e.k4 = map[uint64]bool{}
+	e.delRev = map[uint64]uint64{}
 	e.failStreak = map[uint64][]time.Duration{}
 	e.minB, e.maxB = time.Duration(minB)*time.Millisecond, time.Duration(maxB)*time.Millisecond
 	e.roundSize, e.batch = roundSize, batch
@@ -325,14 +358,18 @@ func (e *recExec) put(id uint64, data int) {
 	e.calls = append(e.calls, recCall{op: "change", id: id, at: e.since()})
 	e.attempts[id] = 0
 	delete(e.k4, id)
+	delete(e.delRev, id)
 	e.mu.Unlock()
 	wtxn.Commit()
 }
 
 func (e *recExec) del(id uint64) {
 	wtxn := e.db.WriteTxn(e.table)
-	e.table.Delete(wtxn, &recObj{ID: id})
+	_, had, _ := e.table.Delete(wtxn, &recObj{ID: id})
 	e.mu.Lock()
+	if had {
+		e.delRev[id] = e.table.Revision(wtxn)
+	}
 	delete(e.ref, id)
 	e.calls = append(e.calls, recCall{op: "change", id: id, at: e.since()})
 	e.attempts[id] = 0
@@ -386,7 +423,14 @@ func (e *recExec) state() string {
 	ctx, cancel := context.WithCancel(context.Background())
 	_, lw, _ := e.rec.WaitUntilReconciled(ctx, 0)
 	cancel()
-	return fmt.Sprintf("calls=[%s] objs=[%s] lw=%d", strings.Join(cs, " "), strings.Join(objs, " "), lw)
+	// the exact value depends on the order in which commitStatus walks its result map (which
+	// object of one round gets which status revision); only zero / non-zero is compared with the
+	// model, the value is bounded from both sides by settleOracle
+	lwc := "0"
+	if lw != 0 {
+		lwc = "+"
+	}
+	return fmt.Sprintf("calls=[%s] objs=[%s] lw=%s", strings.Join(cs, " "), strings.Join(objs, " "), lwc)
 }
 
 // settleOracle: the clauses of C15 / C16 that hold at every quiet point
@@ -429,15 +473,61 @@ func (e *recExec) settleOracle(o *Out) {
 			o.Fail("C15", "object-lost", nil, fmt.Sprintf("object %d written by the user is not in the table", id))
 		}
 	}
+	// C16 low-watermark: never above the oldest change among the failed operations awaiting retry
+	// (skipped while the K4 scenario is active: there a failed object silently leaves the queue)
+	if len(e.k4) == 0 {
+		bound, what := uint64(0), ""
+		consider := func(rev uint64, w string) {
+			if bound == 0 || rev < bound {
+				bound, what = rev, w
+			}
+		}
+		lastCall := func(op string, id uint64) (recCall, bool) {
+			for i := len(e.calls) - 1; i >= 0; i-- {
+				if e.calls[i].op == op && e.calls[i].id == id {
+					return e.calls[i], true
+				}
+			}
+			return recCall{}, false
+		}
+		for obj, rev := range e.table.All(rtx) {
+			if obj.GetStatus().Kind == reconciler.StatusKindError {
+				if c, ok := lastCall("U", obj.ID); ok && !c.ok && c.data == obj.Data {
+					consider(rev, fmt.Sprintf("failed update of object %d (now at revision %d)", obj.ID, rev))
+				}
+			}
+		}
+		for id, dr := range e.delRev {
+			if c, ok := lastCall("D", id); ok && !c.ok && e.target[id].present {
+				consider(dr, fmt.Sprintf("failed delete of object %d (deleted at revision %d)", id, dr))
+			}
+		}
+		if bound > 0 {
+			ctx, cancel := context.WithCancel(context.Background())
+			_, lw, _ := e.rec.WaitUntilReconciled(ctx, 0)
+			cancel()
+			if lw > bound {
+				o.Fail("C16", "low-watermark-above-oldest-failed", nil, fmt.Sprintf("retry low-watermark is %d, above the %s", lw, what))
+			}
+			if lw == 0 {
+				o.Fail("C16", "low-watermark-zero-with-failed-object", nil, fmt.Sprintf("retry low-watermark is 0 although a %s awaits retry", what))
+			}
+		}
+	}
 	// C16 pacing: consecutive failed attempts of one object with no change or success in between
 	streak := map[string][]time.Duration{}
 	for _, c := range e.calls {
 		if c.op == "change" {
-			delete(streak, fmt.Sprintf("U%d", c.id))
-			delete(streak, fmt.Sprintf("D%d", c.id))
+			for k := range streak {
+				if strings.HasPrefix(k, fmt.Sprintf("U%d:", c.id)) || strings.HasPrefix(k, fmt.Sprintf("D%d:", c.id)) {
+					delete(streak, k)
+				}
+			}
 			continue
 		}
-		key := fmt.Sprintf("%s%d", c.op, c.id)
+		// attempts on different versions of an object are different operations (a change made
+		// while an older version's retry is still queued starts over)
+		key := fmt.Sprintf("%s%d:%d", c.op, c.id, c.data)
 		if c.ok {
 			delete(streak, key)
 			continue
